@@ -386,6 +386,19 @@ func sequential(r *ev.Run, sd sysDef, u *uni.Universe, rng *rand.Rand, maxRoots 
 			differ("registry-changed", rt, resolveShared(rt))
 		}
 	}
+	// Cache saturation (PyPI, one universe in three): the resolver's bounded
+	// caches are filled beyond their capacity by a foreign resolution, so that
+	// the roots' own markers and constraints are inserted through the eviction
+	// path and then looked up again.
+	if sd.name == "PyPI" && rng.Intn(3) == 0 {
+		uni.SaturatePyPI(res, func(c resolve.Client) { sw.set(c) })
+		r.Count("cache_saturations:"+sd.name, 1)
+		for k := 0; k < 2; k++ {
+			for _, rt := range roots {
+				differ("caches-saturated", rt, resolveShared(rt))
+			}
+		}
+	}
 	c3 := copyClient{u.Client(nil)} // aliasing
 	for _, rt := range roots {
 		differ("defensive-copy-client", rt, run(sd.mk, c3, budget, rt))
